@@ -27,6 +27,9 @@ def generate(ctx):
         kind = KINDS[i % len(KINDS)]
         d = {"kind": kind, "B": rng.randint(2, 5), "dt": rng.choice([1.0, 0.5]), "T": rng.randint(8, 25),
              "seed": rng.randrange(1 << 30), "dtype": "float64"}
+        # "for all batch sizes": also batch sizes reached through the batchsz setter (built at another size, then resized)
+        d["resize_from"] = rng.choice([None, None, 1, d["B"] + 2, max(1, d["B"] - 1)]) if kind in ("neuron", "synapse", "connection") else None
+        d["warm"] = rng.choice([0, 0, 3])
         if kind == "neuron":
             d.update(cls=fac.NEURONS[(i // len(KINDS)) % 8], shape=list(rng.choice([(3,), (2, 2)])), lock=rng.random() < 0.8)
         elif kind == "synapse":
@@ -99,7 +102,14 @@ def inferno_errors():
 def _neuron(ctx, desc):
     g = torch.Generator().manual_seed(desc["seed"])
     B, dt, shape = desc["B"], desc["dt"], tuple(desc["shape"])
-    nb = fac.make_neuron(desc["cls"], shape, dt, B, dtype=torch.float64)
+    B0 = desc.get("resize_from")
+    nb = fac.make_neuron(desc["cls"], shape, dt, B0 or B, dtype=torch.float64)
+    if B0:
+        # a group used at one batch size and re-used at another: the setter documents a reset to the resting state
+        for _ in range(desc.get("warm", 0)):
+            nb(torch.rand((B0,) + shape, generator=g, dtype=torch.float64) * 60)
+        nb.batchsz = B
+        ctx.count("resized_components")
     singles = [fac.make_neuron(desc["cls"], shape, dt, 1, dtype=torch.float64) for _ in range(B)]
     # learned adaptation: identical non-trivial values everywhere, frozen during the run
     attr = fac.ADAPTIVE.get(desc["cls"])
@@ -115,7 +125,7 @@ def _neuron(ctx, desc):
         x = x + torch.randn(x.shape, generator=g, dtype=torch.float64) * 5 * (torch.arange(B).view(-1, *[1] * len(shape)) > 1)
         sb = nb(x, **kw)
         ss = [n(x[b:b + 1], **kw) for b, n in enumerate(singles)]
-        ctx.case(f"neuron/{desc['cls']}/B{B}/lock{int(desc['lock'])}/dt{dt}")
+        ctx.case(f"neuron/{desc['cls']}/B{B}/lock{int(desc['lock'])}/dt{dt}/{'resized' if B0 else 'built'}")
         ctx.count("steps_checked")
         if not (_cmp(ctx, desc, "spikes", [sb[b:b + 1] for b in range(B)], ss, t)
                 and _cmp(ctx, desc, "voltage", [nb.voltage[b:b + 1] for b in range(B)], [n.voltage for n in singles], t)
@@ -133,7 +143,11 @@ def _mk_syn(desc, B):
 def _synapse(ctx, desc):
     g = torch.Generator().manual_seed(desc["seed"])
     B, dt, shape = desc["B"], desc["dt"], tuple(desc["shape"])
-    sb = _mk_syn(desc, B)
+    B0 = desc.get("resize_from")
+    sb = _mk_syn(desc, B0 or B)
+    if B0:
+        sb.batchsz = B
+        ctx.count("resized_components")
     singles = [_mk_syn(desc, 1) for _ in range(B)]
     xs = _per_sample_inputs(g, B, shape, desc["T"], [0.2, 0.5, 0.8])
     for t, x in enumerate(xs):
@@ -141,7 +155,7 @@ def _synapse(ctx, desc):
         args = (x, inj) if desc["syn"] == "deltaplus" else (x,)
         ob = sb(*args)
         os_ = [s(*(a[b:b + 1] for a in args)) for b, s in enumerate(singles)]
-        ctx.case(f"synapse/{desc['syn']}/B{B}/delay{desc['delay']}/{'ip' if desc['inplace'] else 'oop'}")
+        ctx.case(f"synapse/{desc['syn']}/B{B}/delay{desc['delay']}/{'ip' if desc['inplace'] else 'oop'}/{'resized' if B0 else 'built'}")
         ctx.count("steps_checked")
         if not (_cmp(ctx, desc, "current", [ob[b:b + 1] for b in range(B)], os_, t)
                 and _cmp(ctx, desc, "spike", [sb.spike[b:b + 1] for b in range(B)], [s.spike for s in singles], t)):
@@ -167,7 +181,11 @@ def _connection(ctx, desc):
     B, dt = desc["B"], desc["dt"]
     delay = None if desc["delay"] is None else desc["delay"] * dt
     mk = lambda b: fac.make_connection(desc["conn"], dt, syn=desc["syn"], B=b, delay=delay, bias=desc["bias"], dtype=torch.float64)
-    cb = mk(B)
+    B0 = desc.get("resize_from")
+    cb = mk(B0 or B)
+    if B0:
+        cb.batchsz = B
+        ctx.count("resized_components")
     fac.randomize(cb, torch.Generator().manual_seed(desc["seed"] + 7), delay_steps=desc["delay"], dt=dt)
     singles = [mk(1) for _ in range(B)]
     for s in singles:
@@ -178,7 +196,7 @@ def _connection(ctx, desc):
         args = (x, inj) if desc["syn"] == "deltaplus" else (x,)
         ob = cb(*args)
         os_ = [s(*(a[b:b + 1] for a in args)) for b, s in enumerate(singles)]
-        ctx.case(f"connection/{desc['conn']}/{desc['syn']}/B{B}/delay{desc['delay']}/bias{int(desc['bias'])}")
+        ctx.case(f"connection/{desc['conn']}/{desc['syn']}/B{B}/delay{desc['delay']}/bias{int(desc['bias'])}/{'resized' if B0 else 'built'}")
         ctx.count("steps_checked")
         if not (_cmp(ctx, desc, "output", [ob[b:b + 1] for b in range(B)], os_, t)
                 and _cmp(ctx, desc, "syncurrent", [cb.syncurrent[b:b + 1] for b in range(B)], [s.syncurrent for s in singles], t)
